@@ -588,3 +588,41 @@ def g8(ctx):
 
 
 RULES.append(g8)
+
+
+@rule("G9", doc="a group rebuilt over a smaller slot set gets generators cut down to that set: every permutation stored when a class shrinks went through a membership filter on the kept slots")
+def g9(ctx):
+    crate = ctx.lib()
+    n = 0
+    for wid in C.need("slot-set writer (shrink_slots)", C.slot_writers(crate)):
+        b = crate.bodies[wid]
+        news = [c for c in b.all_calls() if c.callee and c.callee.is_("new", "group::Group") and not c.body.blocks[c.bb]["cleanup"]]
+        if not news:
+            continue
+        # the permutations built in this function (and its closures): ProvenPerm { elem, .. }
+        for sub in b.all_bodies():
+            for bi, si, st in sub.statements():
+                rv = st["rv"] if st["k"] == "assign" else None
+                if not (rv and rv["k"] == "agg" and rv.get("agg") == "adt" and str(rv.get("adt", "")).endswith("ProvenPerm")):
+                    continue
+                if sub.blocks[bi]["cleanup"]:
+                    continue
+                n += 1
+                fields = rv.get("fields", [])
+                el = sub.role_of_operand(rv["ops"][fields.index("elem")]) if "elem" in fields else None
+                ok = False
+                if el is not None:
+                    for x in role_walk(el):
+                        if isinstance(x, tuple) and x[0] == "call" and x[1] in ("filter", "retain", "filter_map") and len(x[3]) >= 2:
+                            cl = C._closure_of_role(crate, x[3][1])
+                            if hasattr(cl, "calls") and any(c.callee and c.callee.name in ("contains", "contains_key") for c in cl.calls):
+                                ok = True
+                        if isinstance(x, tuple) and x[0] == "call" and x[1].startswith("restrict"):
+                            ok = True
+                ctx.check(ok, "generators-cut-to-kept-slots:" + C.fkey(b), "%s stores generators whose entries were filtered by membership in the kept slot set" % C.short(wid),
+                          "%s builds the shrunk class's group from a permutation that still has entries for the dropped slots (%s): Group::new stabilises the lowest moved slot — if that is a dropped one, build_ot indexes a permutation that lacks it and a plain union panics ('index missing'); otherwise the group acts on more slots than the class has" % (C.short(wid), role_str(el)[:60] if el is not None else "?"),
+                          where_of(sub, bi, st.get("line")))
+    ctx.floor("permutations built while shrinking a class", n, 1)
+
+
+RULES.append(g9)
